@@ -16,7 +16,7 @@ ASSUMPTIONS = ["scipy.linalg.expm closed form of the linear rate equations is th
                "reference log-priors from vlib/ref.py (C16)"]
 RUN_OPTS = {"batch_size": 5, "timeout_per_case": 120.0}
 MINIMA = {"*": {"cost_evaluations": 300, "contract_evaluations": 300, "ll_data_entries": 1000, "permutation_pairs": 100, "history_pairs": 100,
-                "out_of_support_thetas": 20, "emcee_evaluations": 40, "differing_key_cases": 3, "reconfigured_evaluations": 40}}
+                "out_of_support_thetas": 20, "emcee_evaluations": 40, "differing_key_cases": 3, "reconfigured_evaluations": 40, "stochastic_cost_evaluations": 20}}
 
 ALLP = ["kp", "k1", "k2", "d", "da"]
 
@@ -86,7 +86,7 @@ def gen_case(rnd, thorough, i):
             thetas.append([float("%.4g" % (true[p] * rnd.uniform(0.3, 3))) for p in est])
     return {"N": N, "T": T, "true": true, "est": est, "conds": conds, "condkeys": condkeys, "x0s": x0s, "grids": grids, "meas": meas, "noise": noise,
             "prior": prior, "norm": rnd.randint(1, 3), "thetas": thetas, "single_frame": (N == 1 and rnd.random() < 0.5),
-            "ic_as_dict": False, "emcee": (i % 6 == 0), "stochastic": (i % 5 == 0),
+            "ic_as_dict": False, "emcee": (i % 6 == 0), "stochastic": (i % 3 == 0),
             "seed": rnd.getrandbits(30) + 1, "_": 0, "differing_keys": len(set(tuple(sorted(c)) for c in conds)) > 1}
 
 
@@ -338,8 +338,22 @@ def run_case(case):
         import pandas as pd
         from bioscrape.types import Model
         from bioscrape.inference_setup import InferenceSetup
-        Ms = Model(species=["A", "B", "C"], reactions=[(["A"], ["B"], "massaction", {"k": "k1"}), (["B"], ["C"], "massaction", {"k": "k2"})],
-                   parameters=[("k1", 1.0), ("k2", 2.0)], initial_condition_dict={"A": 0, "B": 0, "C": 5})
+        # measured species follow assignment rules over parameters, the only reaction can never fire: the stochastic trajectories
+        # are known constants, and per-trajectory parameter conditions (with different key sets, also an empty one after a
+        # non-empty one) decide them
+        Ms = Model(species=["A", "B", "C", "Z", "W"], reactions=[(["Z"], ["W"], "massaction", {"k": "k1"})],
+                   parameters=[("k1", 1.0), ("pa", 1.5), ("pb", 0.75), ("pc", 4.0)],
+                   rules=[("assignment", {"equation": "A = pa"}), ("assignment", {"equation": "B = 2*pb"}), ("assignment", {"equation": "C = pc + 1"})],
+                   initial_condition_dict={"A": 0, "B": 0, "C": 0, "Z": 0, "W": 2})
+        dflt = {"pa": 1.5, "pb": 0.75, "pc": 4.0}
+        r2 = random.Random(case["seed"] + 77)
+        sconds = []
+        for n in range(case["N"]):
+            keys = [k_ for k_ in ("pa", "pb", "pc") if r2.random() < 0.5]
+            sconds.append({k_: float("%.3g" % (dflt[k_] * r2.uniform(1.5, 4))) for k_ in keys})
+        if case["N"] > 1:
+            sconds[0] = sconds[0] or {"pb": 2.5}
+            sconds[r2.randrange(1, case["N"])] = {}           # an empty condition after a non-empty one
         fr, ics = [], []
         for n in range(case["N"]):
             tp = np.array(case["grids"][n])
@@ -347,20 +361,27 @@ def run_case(case):
             for m in case["meas"]:
                 cols[m] = np.array([case["noise"][n][t][case["meas"].index(m)] for t in range(case["T"])]) + 3.0
             fr.append(pd.DataFrame(cols))
-            ics.append({"A": 0, "B": 0, "C": float(n + 2)})
-        infs = InferenceSetup(Model=Ms, exp_data=fr if case["N"] > 1 else fr[0], measurements=list(case["meas"]), time_column="time", params_to_estimate=["k1"],
-                              prior={"k1": ["uniform", 0.0, 10.0]}, initial_conditions=ics if case["N"] > 1 else ics[0], norm_order=case["norm"],
-                              sim_type="stochastic", N_simulations=1)
+            ics.append({"Z": 0, "W": float(n + 2)})
+        multi = case["N"] > 1
+        kw_s = dict(Model=Ms, exp_data=fr if multi else fr[0], measurements=list(case["meas"]), time_column="time", params_to_estimate=["k1"],
+                    prior={"k1": ["uniform", 0.0, 10.0]}, initial_conditions=ics if multi else ics[0], norm_order=case["norm"],
+                    sim_type="stochastic", N_simulations=1)
+        kw_s["parameter_conditions"] = [dict(c_) for c_ in sconds] if multi else dict(sconds[0])
+        infs = InferenceSetup(**kw_s)
         tot = 0.0
         for n in range(case["N"]):
+            pn = dict(dflt)
+            pn.update(sconds[n])
+            const = {"A": pn["pa"], "B": 2 * pn["pb"], "C": pn["pc"] + 1}
             for m in case["meas"]:
-                const = {"A": 0.0, "B": 0.0, "C": float(n + 2)}[m]
-                tot += float(np.sum(np.abs(np.array(fr[n][m]) - const) ** case["norm"]))
+                tot += float(np.sum(np.abs(np.array(fr[n][m]) - const[m]) ** case["norm"]))
         exp = math.log(1 / 10.0) - tot ** (1.0 / case["norm"])
-        v = float(infs.cost_function(np.array([1.5])))
-        C["stochastic_cost_evaluations"] += 1
-        if not abs(v - exp) <= 1e-9 * (1 + abs(exp)):
-            bad("stochastic-cost-alignment", "stochastic cost %r, expected %r (constant trajectories, N=%d, measured %s)" % (v, exp, case["N"], case["meas"]))
+        for th_ in (1.5, 0.5, 1.5):
+            v = float(infs.cost_function(np.array([th_])))
+            C["stochastic_cost_evaluations"] += 1
+            if not abs(v - exp) <= 1e-9 * (1 + abs(exp)):
+                bad("stochastic-cost-alignment", "stochastic cost %r, expected %r (rule-driven constant trajectories, N=%d, measured %s, conditions %r)" % (v, exp, case["N"], case["meas"], sconds))
+                break
     # a short real emcee run observed by the contract
     if case["emcee"]:
         tmp = tempfile.mkdtemp(prefix="c15-", dir="/var/tmp")
